@@ -284,3 +284,8 @@ def aa_raises(ctx, st, exc):
 
 UNITS.append(Unit("C03", "jsonargparse._typehints:ActionTypeHint.apply_appends", aa_setup, aa_post, aa_raises, expect_cover=("return", "raise:TypeError"),
                   trusted=["_check_type_ requires an enclosing parser_context (get_load_value_mode asserts it): stated as its precondition and checked at this call site"]))
+
+# a problem in a default config file surfaces as ArgumentError (get_defaults)
+import dataclasses as _dc  # noqa: E402
+from contracts.c04 import UNITS as _C04_UNITS  # noqa: E402
+UNITS += [_dc.replace(u, prop="C03") for u in _C04_UNITS if u.target.endswith("ArgumentParser.get_defaults")]
